@@ -433,7 +433,38 @@ def gen_shape_cases(rng):
         ("select a from t1 where exists (select 1 from t2 left join t3 on t2.x = t3.p where t2.x = t1.a and t3.p is null)", False),
         ("select a from t1 where a not in (select x from t2 where x is not null)", False),
     ]
-    return [{"setup": setup, "sql": q, "features": ["shape"], "ordered": o, "nkeys": 0} for q, o in qs]
+    k2 = rng.choice([1, 2, 3])
+    qs2 = [
+        # self joins: the same table twice (column identity carries the table occurrence)
+        ("select x.a, y.b from t1 x join t1 y on x.a = y.b", False),
+        ("select x.a, y.a from t1 x left join t1 y on x.a = y.b and y.a > %d" % k, False),
+        ("select x.a, y.a, z.a from t1 x join t1 y on x.a = y.a join t1 z on y.b = z.b where x.b > %d" % k, False),
+        ("select x.a from t1 x where x.b > (select min(y.b) from t1 y where y.a = x.a)", False),
+        ("select x.a from t1 x where exists (select 1 from t1 y where y.a = x.b and y.b <> x.b)", False),
+        ("select x.x, count(*) from t2 x join t2 y on x.x = y.y group by x.x", False),
+        # limits: nested, zero, beyond the input, over joins and aggregates
+        ("select a from (select a from t1 order by a, b limit 4) s order by a desc limit 2", True),
+        ("select a, b from t1 order by a, b limit 0", True),
+        ("select a, b from t1 order by a, b limit 3 offset 50", True),
+        ("select a, b from t1 order by a, b offset %d" % k2, True),
+        ("select t1.a, t2.y from t1 join t2 on t1.a = t2.x order by t1.a, t2.y limit %d" % k2, True),
+        ("select a, count(*) from t1 group by a order by a limit %d offset 1" % k2, True),
+        ("select count(*) from (select a from t1 limit %d) s" % k2, False),
+        # filters around aggregation: on the key (pushable), on the aggregate (not), mixed, through a derived table
+        ("select a, sum(b) from t1 group by a having a > %d" % k, False),
+        ("select a, sum(b) from t1 group by a having sum(b) > %d and a is not null" % k, False),
+        ("select s.a, s.n from (select a, count(b) as n from t1 group by a) s where s.a > %d or s.n = 0" % k, False),
+        ("select s.a from (select a, max(b) as m from t1 group by a) s join t2 on s.m = t2.y where s.a > %d" % k, False),
+        # IN lists with NULL under NOT, BETWEEN, CASE in predicates
+        ("select a from t1 where a not in (1, NULL)", False),
+        ("select a from t1 where not (a in (%d, 2) or b is null)" % k, False),
+        ("select a from t1 where a between %d and %d" % (k, k + 1), False),
+        ("select a from t1 where not (a between %d and %d)" % (k + 1, k), False),
+        ("select a from t1 where case when b > %d then a else b end > 1" % k, False),
+        ("select a, case when a is null then 0 when a > 1 then a else -a end from t1", False),
+    ]
+    return [{"setup": setup, "sql": q, "features": ["shape"], "ordered": o, "nkeys": 0} for q, o in qs] + \
+        [{"setup": setup, "sql": q, "features": ["shape2"], "ordered": o, "nkeys": (2 if o and "a, b" in q else 1 if o else 0)} for q, o in qs2]
 
 
 def gen_dml_cases(rng):
